@@ -53,7 +53,7 @@ func (w *c11World) specFiles(dir string) (spec, other []string) {
 	return
 }
 
-var c11OpKinds = []string{"create-by-write", "touch", "rewrite-in-place", "append", "tmp-rename-inside", "rename-in-from-outside", "hardlink-in", "rename-away", "rename-to-non-spec", "rename-from-non-spec", "unlink", "mkdir-missing", "rmdir-with-content", "recreate-dir", "create-invalid", "chmod"}
+var c11OpKinds = []string{"create-by-write", "touch", "rewrite-in-place", "append", "tmp-rename-inside", "rename-in-from-outside", "hardlink-in", "rename-away", "rename-to-non-spec", "rename-from-non-spec", "unlink", "mkdir-missing", "rmdir-with-content", "recreate-dir", "create-invalid", "chmod", "truncate", "truncate"}
 
 // do performs one operation; it returns "" when it is not applicable now.
 func (w *c11World) do(kind string) (desc string) {
@@ -186,6 +186,17 @@ func (w *c11World) do(kind string) (desc string) {
 		}
 		must(os.RemoveAll(dir))
 		return "rm -rf " + dir
+	case "truncate":
+		if len(specs) == 0 {
+			return ""
+		}
+		p := filepath.Join(dir, specs[r.Intn(len(specs))])
+		if chance(r, 50) {
+			must(os.Truncate(p, 0))
+		} else {
+			must(os.WriteFile(p, nil, 0o644))
+		}
+		return "truncate " + p
 	case "chmod":
 		if len(specs) == 0 {
 			return ""
@@ -232,7 +243,7 @@ func cacheState(c *cdi.Cache, dirs []string) (string, map[string]any) {
 }
 
 func checkC11(c *Ctx) {
-	c.Rule = "seeded histories of 1-12 file-system operations over 1-3 configured directories (+ anchor): create-by-write, touch, rewrite in place, append, tmp+rename inside, rename in from a staging directory, hard link in, rename away, rename to/from a non-Spec name, unlink, chmod, create a missing (nested) directory, remove a directory with its content, recreate it; valid and invalid content; pacing per step in {immediately, after yield, after logical quiescence, with the watcher goroutine held so that further operations pile up behind it, from inside a refresh's directory scan (scan.beforeRead hook) so that the change lands after its entry was passed}; observed through ListDevices/GetDevice/GetErrors/InjectDevices only (never Refresh()); oracle: after quiescence, within two rounds of queries, devices, definitions and files in error equal those of a fresh manual cache on the final contents; distinct_nontrivial = distinct (operation-kind sequence, pacing sequence) whose final state differs from the initial one"
+	c.Rule = "seeded histories of 1-12 file-system operations over 1-3 configured directories (+ anchor): create-by-write, touch, rewrite in place, truncate to zero length, append, tmp+rename inside, rename in from a staging directory, hard link in, rename away, rename to/from a non-Spec name, unlink, chmod, create a missing (nested) directory, remove a directory with its content, recreate it; valid and invalid content; pacing per step in {immediately, after yield, after logical quiescence, with the watcher goroutine held so that further operations pile up behind it, from inside a refresh's directory scan (scan.beforeRead hook) so that the change lands after its entry was passed}; observed through ListDevices/GetDevice/GetErrors/InjectDevices only (never Refresh()); oracle: after quiescence, within two rounds of queries, devices, definitions and files in error equal those of a fresh manual cache on the final contents; distinct_nontrivial = distinct (operation-kind sequence, pacing sequence) whose final state differs from the initial one"
 	c.Assume("inotify delivers the events of one instance in order and the watcher goroutine handles one event completely before the next (quiescence by sentinel)", "renaming a configured directory itself, symlinks and bind mounts are outside the listed change kinds", "convergence is checked at history end, not at every instant")
 	c.RunCases("hist", c.pick(700, 12000), 4, func(cs *Case) {
 		r := cs.R
